@@ -30,15 +30,16 @@ RULE = ('calls saturation(data, max_voltage, v_per_sec, fs, proportion, mute_win
         'slew disabled; mode slew: the same counts with steps one ulp below / at / one ulp above the smallest step that reaches v_per_sec*fs, '
         'range huge; mode natural: Gaussian data scaled so that both criteria fire on about the proportion of channels; mode runs: few channels, '
         'long flag patterns (none, all, isolated, runs of every length, two runs at gaps 1..M+2, runs touching either end) and odd taper widths '
-        '1..33 (51, 101 where SciPy may switch to FFT); mode sweep: EVERY channel count 1..400 with k0 / k0+1 (thorough: also k0-1, six proportions) channels over the threshold or over the slew limit; mode edge: broadcasting (nc=1 against a longer max_voltage, wrong lengths), '
-        'mute_window_samples 0 / negative, ns = 0, 1, 2, nc = 0, inf/nan samples.  Even widths are outside the property (known finding F9) and are only run in a small '
+        '1..33 (51, 101 where SciPy may switch to FFT); mode sweep: EVERY channel count 1..400 with k0 / k0+1 (thorough: also k0-1, six proportions) channels over the threshold or over the slew limit; mode int: int16/int32/int64 traces (and a transposed int64 view), integer or float max_voltage, slew-only events with integer steps one below / at / one above the limit on k0-1/k0/k0+1/all channels, or integer samples around 0.98*range; mode edge: broadcasting (nc=1 against a longer max_voltage, wrong lengths), '
+        'mute_window_samples 0 / negative, ns = 0, 1, 2, nc = 0, inf/nan samples.  The FORM of every call is drawn from its own stream, independently of the values: C / Fortran / transposed / strided data, read-only, positional or keyword spelling in the documented order, scalar arguments as Python or NumPy types.  Even widths are outside the property (known finding F9) and are only run in a small '
         'code-vs-model batch that ties even_width_counterexample to the code.  Every second case is called twice and every sixth three times with the SAME argument objects (each call compared with the model of the original values; an argument that comes back modified is only tagged and followed up with three calls).  Flags are compared exactly, the mute gain to 1e-12 with exact '
         'zeros and ones where SciPy convolves directly.  A case is non-trivial when it has both flagged and unflagged samples or a planted '
         'boundary; distinct by recipe.')
 ASSUMPTIONS = [
-    'v_per_sec, fs and proportion are Python scalars (as in every caller): with NumPy >= 2 they adopt the precision of the array they meet',
+    'Python scalars adopt the precision of the array they meet (NumPy >= 2); NumPy scalars are strong: the model instance follows the same promotion',
     'repeated calls with the SAME argument objects must each follow the rule on the values originally passed (the model is a pure function); whether an argument is modified in place is only recorded as a tag and used to choose follow-up calls',
-    'data is a 2-D float32 or float64 array [nc, ns]; integer data (abs/diff overflow) is outside the property',
+    'data is a 2-D float32 / float64 / int16 / int32 / int64 array [nc, ns] in any memory layout; integer data containing the dtype minimum or a step that leaves the dtype are excluded (known finding int_overflow: np.abs / np.diff wrap around); unsigned data are not generated',
+    'scalar arguments may be Python int/float, np.float64, np.float32, np.int16/32/64 (mute_window_samples: int, np.int64, np.int16, np.uint8); a float32 scalar stands for its exact value; which precision NumPy then uses for the slew test is asked of np.result_type and passed to the model',
     'the mute theorems are over the reals; the float64 gain differs by summation rounding (compared to 1e-12; exact 0 and 1 where direct)',
     'even mute_window_samples are excluded from the property (known finding even_mute_window); the theorems carry the hypothesis win[(M-1)/2] >= 1',
     'slew test at exact equality: the code uses >=, the statement says exceed; model follows the code, the oracle accepts either there',
@@ -94,20 +95,49 @@ def _classify(e):
 
 def _same_bits(a, b):
     a, b = np.asarray(a), np.asarray(b)
-    return a.shape == b.shape and a.dtype == b.dtype and a.tobytes() == b.tobytes()
+    return a.shape == b.shape and a.dtype == b.dtype and np.ascontiguousarray(a).tobytes() == np.ascontiguousarray(b).tobytes()
+
+
+ARG_ORDER = ('v_per_sec', 'fs', 'proportion', 'mute_window_samples')      # the documented signature after (data, max_voltage)
+
+
+def _materialise(d, layout, readonly):
+    """the same values in another legitimate memory form"""
+    if layout == 'F':
+        a = np.asfortranarray(d)
+    elif layout == 'T':                       # transposed view of a C-contiguous [ns, nc] array (what Reader[...].T gives)
+        a = np.ascontiguousarray(d.T).T
+    elif layout == 'strided':                 # every second column of a wider array
+        big = np.zeros((d.shape[0], 2 * d.shape[1] + 1), d.dtype)
+        big[:, :2 * d.shape[1]:2] = d
+        a = big[:, :2 * d.shape[1]:2]
+    else:
+        a = d.copy()
+    if readonly:
+        a.setflags(write=False)
+    return a
 
 
 def _run(case, calls=None):
     """Call the real function `calls` times (default case['calls'] or 1) with the SAME argument objects, as a caller that
-    keeps its range array does.  Returns one entry per call: ('ok', flags, mute) or ('err …',).  Whether `data` / `max_voltage`
-    are still bit-identical to what was passed in is RECORDED (last element {'modified': …}; the function gets private copies that
-    are compared with the originals) but is not itself a demand of C16: it is used as a tag and to choose follow-up calls, and a
-    disagreement is reported only through its consequence, a later call whose RESULT differs from the rule on the original values."""
+    keeps its range array does, in the FORM case['form'] (memory layout, read-only, positional or keyword spelling; the scalar
+    arguments carry their own Python / NumPy types).  Returns one entry per call: ('ok', flags, mute) or ('err …',).  Whether
+    `data` / `max_voltage` are still bit-identical to what was passed in is RECORDED (last element {'modified': …}; the function
+    gets private copies that are compared with the originals) but is not itself a demand of C16: it is used as a tag and to choose
+    follow-up calls, and a disagreement is reported only through its consequence, a later call whose RESULT differs from the rule
+    on the original values."""
     calls = int(calls or case.get('calls') or 1)
-    kw = {k: case[k] for k in ('v_per_sec', 'fs', 'proportion', 'mute_window_samples') if case.get(k) is not None}
-    data = case['data'].copy()
+    form = case.get('form') or {}
+    data = _materialise(case['data'], form.get('layout', 'C'), form.get('readonly', False))
     mv0 = case['max_voltage']
     mv = mv0.copy() if isinstance(mv0, np.ndarray) else list(mv0) if isinstance(mv0, list) else mv0
+    if form.get('spelling') == 'pos':
+        dflt = _defaults()
+        args = tuple(case.get(k) if case.get(k) is not None else dflt[k] for k in ARG_ORDER)
+        kw = {}
+    else:
+        args = ()
+        kw = {k: case[k] for k in ARG_ORDER if case.get(k) is not None}
     ns = data.shape[1]
     out = []
     for _ in range(calls):
@@ -115,17 +145,18 @@ def _run(case, calls=None):
         with warnings.catch_warnings():
             warnings.simplefilter('ignore')
             try:
-                sat, mute = _sat()(data, mv, **kw)
+                sat, mute = _sat()(data, mv, *args, **kw)
             except ValueError as e:
                 res = (_classify(e),)
             except Exception as e:  # any other exception is not part of the modelled behaviour
                 res = (f'err {type(e).__name__} {str(e)[:60]}',)
         if res is None:
             sat, mute = np.asarray(sat), np.asarray(mute)
-            if sat.shape != (ns,) or mute.shape != (ns,) or sat.dtype != np.bool_ or mute.dtype.kind != 'f':
+            # values, not representations: any boolean-like flags and any real gain of the right length are accepted
+            if sat.shape != (ns,) or mute.shape != (ns,) or sat.dtype.kind not in 'bui' or mute.dtype.kind not in 'fiu':
                 res = (f'err shape flags{sat.shape}{sat.dtype} mute{mute.shape}{mute.dtype}',)
             else:
-                res = ('ok', sat.copy(), mute.astype(np.float64))
+                res = ('ok', sat.astype(bool), mute.astype(np.float64))
         if not _same_bits(data, case['data']):
             res = res + ({'modified': PURITY + ' data argument'},)
         elif isinstance(mv0, (np.ndarray, list)) and not _same_bits(np.asarray(mv), np.asarray(mv0)):
@@ -184,19 +215,40 @@ def _window(M):
     return scipy.signal.windows.cosine(M) if M >= 1 else np.zeros(0)
 
 
+def _slew_form(dtype, fs, v):
+    """which precision NumPy selects for `np.abs(np.diff(data)) / fs` and for `… >= v_per_sec`, asked of NumPy itself"""
+    if dtype == np.float64:
+        return '64x'
+    with warnings.catch_warnings():
+        warnings.simplefilter('ignore')
+        q = np.abs(np.diff(np.ones((1, 2), dtype), axis=-1)) / fs
+        cmp_dtype = np.result_type(q, v)
+    if q.dtype == np.float64:
+        return '64x'
+    assert q.dtype == np.float32, q.dtype
+    return '32r' if cmp_dtype == np.float32 else '32x'
+
+
 def _line(case, dflt):
     data = case['data']
     nc, ns = data.shape
-    dd = '32' if data.dtype == np.float32 else '64'
+    kind = data.dtype.kind
+    dd = ('i%d' % (8 * data.dtype.itemsize)) if kind == 'i' else '32' if data.dtype == np.float32 else '64'
     mva, md = _mv_array(case['max_voltage'])
     fs = case['fs'] if case.get('fs') is not None else dflt['fs']
+    vv = case['v_per_sec'] if case.get('v_per_sec') is not None else dflt['v_per_sec']
     v = 'd' if case.get('v_per_sec') is None else _fbits(case['v_per_sec'])
     p = 'd' if case.get('proportion') is None else _fbits(case['proportion'])
     M = case.get('mute_window_samples')
-    Mi = dflt['mute_window_samples'] if M is None else M
-    rows = '~' if nc == 0 else ';'.join(_blist(r) for r in data)
-    return (f'sat {dd} {md} {ns} {nc} {_fbits(fs)} {v} {p} {"d" if M is None else M} {_blist(_window(Mi))} '
-            f'{_blist(mva)} {rows}')
+    Mi = int(dflt['mute_window_samples'] if M is None else M)
+    if nc == 0:
+        rows = '~'
+    elif kind == 'i':
+        rows = ';'.join((','.join(map(str, r.tolist())) if ns else '-') for r in data)
+    else:
+        rows = ';'.join(_blist(r) for r in data)
+    return (f'sat {dd} {md} {_slew_form(data.dtype, fs, vv)} {ns} {nc} {_fbits(fs)} {v} {p} {"d" if M is None else Mi} '
+            f'{_blist(_window(Mi))} {_blist(mva)} {rows}')
 
 
 def _parse_answer(ans):
@@ -237,7 +289,76 @@ def _canon(impl, model, exact01):
 # generator: a case is rebuilt from (mode, index) alone
 # ---------------------------------------------------------------------------------------------
 def _rng(ctx, mode, i):
-    return ctx.subrng({'over': 1, 'slew': 2, 'natural': 3, 'runs': 4, 'edge': 5, 'even': 6, 'sweep': 8}[mode], i)
+    return ctx.subrng(MODE_ID[mode], i)
+
+
+class _Forms:
+    """the FORM of a call, drawn independently of its values (own random stream): Python / NumPy scalar types, memory layout,
+    read-only arrays, positional or keyword spelling"""
+
+    def __init__(self, rng):
+        self.rng = rng
+        self.tags = []
+
+    def scalar(self, name, x):
+        rng = self.rng
+        if x is None:
+            if rng.random() < 0.75:
+                return None
+            x = _defaults()[name]                       # the default value, spelled out in some other type
+        if isinstance(x, float) and not math.isfinite(x):
+            return x
+        u = rng.random()
+        kind = 'py'
+        if u < 0.45:
+            out = x
+        elif u < 0.62:
+            kind, out = 'np.float64', np.float64(x)
+        elif u < 0.78 and 1e-30 < abs(float(x)) < 1e30:
+            kind, out = 'np.float32', np.float32(x)
+        elif float(x).is_integer() and abs(float(x)) < 2 ** 15:
+            t = [int, np.int64, np.int32, np.int16][int(rng.integers(0, 4))]
+            kind, out = ('int' if t is int else 'np.' + t.__name__), t(x)
+        elif isinstance(x, int):
+            out = float(x)
+            kind = 'float'
+        else:
+            out = x
+        self.tags.append(f'{name}:{kind}')
+        return out
+
+    def width(self, M):
+        if M is None:
+            return None
+        rng = self.rng
+        ts = [int, int, np.int64, np.int16] + ([np.uint8] if 0 <= M < 256 else [])
+        t = ts[int(rng.integers(0, len(ts)))]
+        self.tags.append('M:' + ('int' if t is int else 'np.' + t.__name__))
+        return t(M)
+
+    def call(self, fixed_layout=None):
+        rng = self.rng
+        layout = fixed_layout or str(rng.choice(['C', 'C', 'F', 'T', 'T', 'strided']))
+        form = {'layout': layout, 'readonly': bool(rng.random() < 0.2), 'spelling': 'pos' if rng.random() < 0.3 else 'kw'}
+        self.tags += ['layout=' + layout, 'spelling=' + form['spelling']] + (['readonly'] if form['readonly'] else [])
+        return form
+
+
+MODE_ID = {'over': 1, 'slew': 2, 'natural': 3, 'runs': 4, 'edge': 5, 'even': 6, 'sweep': 8, 'int': 10}
+
+
+def _forms(ctx, mode, i):
+    return _Forms(ctx.subrng(9, MODE_ID[mode], i))
+
+
+def _pfrac(x):
+    """the rational a scalar argument stands for: the shortest decimal of a Python float / float64 ('0.2' is 1/5), the exact
+    value of a float32 or an integer"""
+    if isinstance(x, np.float32):
+        return Fraction(float(x))
+    if isinstance(x, (int, np.integer)):
+        return Fraction(int(x))
+    return Fraction(str(float(x)))
 
 
 def _pick_nc(rng, cap=400):
@@ -246,7 +367,7 @@ def _pick_nc(rng, cap=400):
 
 
 def _k0(p, nc):
-    P = Fraction(str(0.2 if p is None else p))
+    P = _pfrac(0.2 if p is None else p)
     return int(math.floor(P * nc))
 
 
@@ -348,9 +469,10 @@ def _thresholds(mv, nc, dtype):
 
 def _case_over(ctx, i, small=False):
     rng = _rng(ctx, 'over', i)
+    F = _forms(ctx, 'over', i)
     dtype = np.float32 if rng.random() < 0.6 else np.float64
     nc = _pick_nc(rng, 12 if small else 400)
-    p = PROPS[int(rng.integers(0, len(PROPS)))]
+    p = F.scalar('proportion', PROPS[int(rng.integers(0, len(PROPS)))])
     M = _pick_width(rng)
     Mi = 7 if M is None else M
     ns = _pick_ns(rng, Mi, 10 if nc > 100 else 28)
@@ -382,40 +504,50 @@ def _case_over(ctx, i, small=False):
         if how == 'ulp' and n_above:
             tags.add('value_ulp_above')
     v = float(rng.choice([1e6, 1.0, float('inf')]))
-    case = {'data': data, 'max_voltage': mv, 'v_per_sec': v, 'fs': None if rng.random() < 0.5 else float(rng.choice([30000.0, 2500.0])),
-            'proportion': p, 'mute_window_samples': M}
-    return case, ['mode=over', 'pattern=' + pkind, 'range=' + rkind] + sorted(tags)
+    fs = None if rng.random() < 0.5 else float(rng.choice([30000.0, 2500.0]))
+    case = {'data': data, 'max_voltage': mv, 'v_per_sec': F.scalar('v_per_sec', v), 'fs': F.scalar('fs', fs),
+            'proportion': p, 'mute_window_samples': F.width(M), 'form': F.call()}
+    return case, ['mode=over', 'pattern=' + pkind, 'range=' + rkind] + sorted(tags) + F.tags
 
 
 def _slew_steps(dtype, fs, v):
-    """smallest step d0 (in `dtype`) with |d0|/fs >= v under NumPy's own weak-scalar arithmetic, and its neighbours"""
-    def q(d):
-        return bool((np.abs(np.array([d], dtype)) / fs >= v)[0])
-    inf = np.array(np.inf, dtype)
-    d = np.array(v * fs, dtype)[()]
-    for _ in range(200):
-        if not q(d):
-            break
-        d = np.nextafter(d, -inf)
-    for _ in range(400):
-        if q(d):
-            break
-        d = np.nextafter(d, inf)
-    assert q(d) and not q(np.nextafter(d, -inf))
-    return np.nextafter(d, -inf), d, np.nextafter(d, inf)
+    """smallest step d0 (in `dtype`) with |d0|/fs >= v under NumPy's own arithmetic for the scalars as they are passed, and its
+    neighbours (bisection over the bit patterns of positive floats, which are ordered like the values)"""
+    it = np.uint32 if dtype == np.float32 else np.uint64
+
+    def val(k):
+        return np.array([k], dtype=it).view(dtype)[0]
+
+    def q(k):
+        with warnings.catch_warnings():
+            warnings.simplefilter('ignore')
+            return bool((np.abs(np.array([val(k)], dtype)) / fs >= v)[0])
+    g = float(v) * float(fs)
+    lo = int(np.array([g * (1 - 1e-4)], dtype).view(it)[0])
+    hi = int(np.array([g * (1 + 1e-4)], dtype).view(it)[0])
+    assert not q(lo) and q(hi), (dtype, fs, v)
+    while hi - lo > 1:
+        mid = (lo + hi) // 2
+        if q(mid):
+            hi = mid
+        else:
+            lo = mid
+    return val(hi - 1), val(hi), val(hi + 1)
 
 
 def _case_slew(ctx, i):
     rng = _rng(ctx, 'slew', i)
+    F = _forms(ctx, 'slew', i)
     dflt = _defaults()
     dtype = np.float32 if rng.random() < 0.6 else np.float64
     nc = _pick_nc(rng)
-    p = PROPS[int(rng.integers(0, len(PROPS)))]
+    p = F.scalar('proportion', PROPS[int(rng.integers(0, len(PROPS)))])
     M = _pick_width(rng)
     Mi = 7 if M is None else M
     ns = max(2, _pick_ns(rng, Mi, 10 if nc > 100 else 28))
     v = None if rng.random() < 0.5 else float(rng.choice([1e-8, 2.5e-8, 1e-3, 3.3e-9]))
     fs = None if rng.random() < 0.4 else float(rng.choice([30000.0, 2500.0, 30000.25, 29999.97]))
+    v, fs = F.scalar('v_per_sec', v), F.scalar('fs', fs)          # the boundary steps are found for the scalars as they are passed
     dm, d0, dp = _slew_steps(dtype, dflt['fs'] if fs is None else fs, dflt['v_per_sec'] if v is None else v)
     k0 = _k0(p, nc)
     nyes = min(nc, k0 + 3)
@@ -447,18 +579,20 @@ def _case_slew(ctx, i):
             if n_yes and np.any(np.abs(step[yes[:]]) == d0):
                 tags.add('step_at_limit')
     mv = float(rng.choice([1e30, 1e9])) if rng.random() < 0.7 else np.full(nc, 1e30, dtype=np.float32 if rng.random() < 0.5 else np.float64)
-    case = {'data': data, 'max_voltage': mv, 'v_per_sec': v, 'fs': fs, 'proportion': p, 'mute_window_samples': M}
-    return case, ['mode=slew', 'pattern=' + pkind] + sorted(tags)
+    case = {'data': data, 'max_voltage': mv, 'v_per_sec': v, 'fs': fs, 'proportion': p, 'mute_window_samples': F.width(M), 'form': F.call()}
+    return case, ['mode=slew', 'pattern=' + pkind] + sorted(tags) + F.tags
 
 
 def _case_natural(ctx, i):
     from scipy.stats import norm
     rng = _rng(ctx, 'natural', i)
+    F = _forms(ctx, 'natural', i)
     dflt = _defaults()
     dtype = np.float32 if rng.random() < 0.7 else np.float64
     nc = _pick_nc(rng)
     p = PROPS[int(rng.integers(0, len(PROPS)))]
     pe = min(max(0.2 if p is None else p, 0.02), 0.98)
+    p = F.scalar('proportion', p)
     M = _pick_width(rng)
     ns = int(rng.integers(2, 11 if nc > 100 else 25))
     mv, per, rkind = _range_value(rng, nc, dtype)
@@ -468,8 +602,9 @@ def _case_natural(ctx, i):
     data = (rng.standard_normal((nc, ns)) * sigma[:, None] * amp[None, :]).astype(dtype)
     fs = None if rng.random() < 0.5 else 30000.0
     v = float(z * np.median(sigma) * math.sqrt(2) / (dflt['fs'] if fs is None else fs)) * float(rng.choice([0.8, 1.0, 1.2, 50.0]))
-    case = {'data': data, 'max_voltage': mv, 'v_per_sec': v, 'fs': fs, 'proportion': p, 'mute_window_samples': M}
-    return case, ['mode=natural', 'range=' + rkind]
+    case = {'data': data, 'max_voltage': mv, 'v_per_sec': F.scalar('v_per_sec', v), 'fs': F.scalar('fs', fs), 'proportion': p,
+            'mute_window_samples': F.width(M), 'form': F.call()}
+    return case, ['mode=natural', 'range=' + rkind] + F.tags
 
 
 def _case_runs(ctx, i, even=False):
@@ -486,9 +621,10 @@ def _case_runs(ctx, i, even=False):
     data = np.zeros((nc, ns), dtype=dtype)
     data[:, pat] = 2.0
     data *= rng.choice([-1.0, 1.0], size=(nc, 1)).astype(dtype)
-    case = {'data': data, 'max_voltage': 1.0, 'v_per_sec': float('inf'), 'fs': None, 'proportion': None if rng.random() < 0.5 else 0.5,
-            'mute_window_samples': M}
-    return case, ['mode=' + ('even_width(code-vs-model only)' if even else 'runs'), 'pattern=' + pkind, 'ns<M' if ns < Mi else 'ns>=M']
+    F = _forms(ctx, 'even' if even else 'runs', i)
+    case = {'data': data, 'max_voltage': 1.0, 'v_per_sec': float('inf'), 'fs': F.scalar('fs', None),
+            'proportion': F.scalar('proportion', None if rng.random() < 0.5 else 0.5), 'mute_window_samples': F.width(M), 'form': F.call()}
+    return case, ['mode=' + ('even_width(code-vs-model only)' if even else 'runs'), 'pattern=' + pkind, 'ns<M' if ns < Mi else 'ns>=M'] + F.tags
 
 
 def _case_edge(ctx, i):
@@ -521,8 +657,86 @@ def _case_edge(ctx, i):
         data[m < 0.15] = np.inf
         data[(m >= 0.15) & (m < 0.3)] = -np.inf
         data[(m >= 0.3) & (m < 0.45)] = np.nan
-    case = {'data': data, 'max_voltage': mv, 'v_per_sec': float(rng.choice([1e-4, 1.0])), 'fs': None, 'proportion': p, 'mute_window_samples': M}
-    return case, ['mode=edge', 'edge=' + kind]
+    F = _forms(ctx, 'edge', i)
+    case = {'data': data, 'max_voltage': mv, 'v_per_sec': float(rng.choice([1e-4, 1.0])), 'fs': None, 'proportion': p,
+            'mute_window_samples': F.width(M), 'form': F.call()}
+    return case, ['mode=edge', 'edge=' + kind] + F.tags
+
+
+INT_DTYPES = [np.int16, np.int32, np.int64, np.int64]
+
+
+def _case_int(ctx, i):
+    """integer traces ("same units as data", "V/s (or units/s)"): slew-only events on k0-1 / k0 / k0+1 / all channels with
+    integer steps one below / at / one above the limit, or over-threshold events around an integer range; never the dtype's
+    minimum and never a step that leaves the dtype (known finding int_overflow)"""
+    rng = _rng(ctx, 'int', i)
+    F = _forms(ctx, 'int', i)
+    dflt = _defaults()
+    j = int(rng.integers(0, 4))
+    dtype = INT_DTYPES[j]
+    nc = _pick_nc(rng)
+    p = F.scalar('proportion', PROPS[int(rng.integers(0, len(PROPS)))])
+    M = _pick_width(rng)
+    Mi = 7 if M is None else M
+    ns = max(2, _pick_ns(rng, Mi, 10 if nc > 100 else 24))
+    k0 = _k0(p, nc)
+    pat, pkind = _pattern(rng, ns, Mi)
+    data = np.zeros((nc, ns), dtype=dtype)
+    tags = set()
+    if rng.random() < 0.65:
+        what = 'slew'
+        s0 = int(rng.choice([2, 3, 10, 100, 1000]))
+        fs = [None, 1, 30000, 2500.0, 30000.0][int(rng.integers(0, 5))]
+        fsv = dflt['fs'] if fs is None else fs
+        v = F.scalar('v_per_sec', s0 / fsv)                       # a step of exactly s0 units reaches the limit
+        fs = F.scalar('fs', fs)
+        step = np.ones(nc, dtype=np.int64)
+        nyes = min(nc, k0 + 3)
+        nnear = min(2, nc - nyes)
+        step[:nyes] = rng.choice([s0, s0, s0 + 1, 10 * s0], size=nyes)
+        step[nyes:nyes + nnear] = s0 - 1
+        step *= rng.choice([-1, 1], size=nc)
+        step = step[rng.permutation(nc)]
+        with warnings.catch_warnings():
+            warnings.simplefilter('ignore')
+            reach = (np.abs(step.astype(dtype)) / (dflt['fs'] if fs is None else fs) >= v)       # NumPy's own arithmetic
+        yes, near = np.where(reach)[0], np.where(np.abs(step) == s0 - 1)[0]
+        far = np.where(~reach & (np.abs(step) != s0 - 1))[0]
+        for t in range(ns - 1):
+            data[:, t + 1] = data[:, t]
+            if pat[t]:
+                dk = int(rng.choice([-1, 0, 1, 1, 2, 10 ** 6]))
+                n_yes = int(np.clip(k0 + dk, 0, len(yes)))
+                sel = list(rng.permutation(yes)[:n_yes]) + list(near[:int(rng.integers(0, len(near) + 1))]) + \
+                    list(rng.permutation(far)[:int(rng.integers(0, 3))])
+                for c in sel:
+                    data[c, t + 1] = step[c] if data[c, t] == 0 else 0
+                tags.add('k=all' if n_yes == nc else 'k=k0%+d' % (n_yes - k0) if abs(n_yes - k0) <= 2 else 'k=other')
+                tags.add('int_step_at_limit')
+        mv = [10 ** 6, 1e9, np.full(nc, 10 ** 6), np.full(nc, 1e9), np.full(nc, 1e9, np.float32)][int(rng.integers(0, 5))]
+    else:
+        what = 'over'
+        R = int(rng.choice([50, 100, 512, 8192, 32767]))
+        mv = [R, float(R), np.full(nc, R), np.full(nc, float(R)), np.full(nc, R, np.float32), [R] * nc][int(rng.integers(0, 6))]
+        thr = 0.98 * R
+        above = int(math.floor(thr)) + 1
+        at = int(thr) if float(thr).is_integer() else int(math.floor(thr))       # a tie when 0.98 R is an integer, else just below
+        for t in np.where(pat)[0]:
+            dk = int(rng.choice([-1, 0, 1, 1, 2, 10 ** 6]))
+            n_above = int(np.clip(k0 + dk, 0, nc))
+            n_at = int(min(rng.choice([0, 1, 2]), nc - n_above))
+            perm = rng.permutation(nc)
+            sgn = rng.choice([-1, 1], size=nc)
+            data[perm[:n_above], t] = (sgn * above)[perm[:n_above]] if rng.random() < 0.7 else (sgn * R)[perm[:n_above]]
+            data[perm[n_above:n_above + n_at], t] = (sgn * at)[perm[n_above:n_above + n_at]]
+            tags.add('k=all' if n_above == nc else 'k=k0%+d' % (n_above - k0) if abs(n_above - k0) <= 2 else 'k=other')
+            tags.add('int_value_at_threshold')
+        v, fs = F.scalar('v_per_sec', 1e12), F.scalar('fs', None)
+    layout = 'T' if j == 3 else None                                 # the fourth "dtype" is a transposed int64 view
+    case = {'data': data, 'max_voltage': mv, 'v_per_sec': v, 'fs': fs, 'proportion': p, 'mute_window_samples': F.width(M),
+            'form': F.call(layout)}
+    return case, ['mode=int_' + what, 'pattern=' + pkind] + sorted(tags) + F.tags
 
 
 SWEEP_P = [None, 1 / 3, 0.5, 0.05, 0.25, 0.1]
@@ -550,7 +764,7 @@ def _case_sweep(ctx, i):
     return case, ['mode=sweep_nc_1..400', 'k=k0%+d' % (k - _k0(p, nc)), 'sweep=slew' if use_slew else 'sweep=over']
 
 
-BUILDERS = {'sweep': _case_sweep, 'over': _case_over, 'slew': _case_slew, 'natural': _case_natural, 'runs': _case_runs, 'edge': _case_edge,
+BUILDERS = {'int': _case_int, 'sweep': _case_sweep, 'over': _case_over, 'slew': _case_slew, 'natural': _case_natural, 'runs': _case_runs, 'edge': _case_edge,
             'even': lambda ctx, i: _case_runs(ctx, i, even=True)}
 
 
@@ -562,7 +776,7 @@ def _plan(ctx):
     q = ctx.quick
     return [('over', 600 if q else 6000), ('slew', 450 if q else 4500), ('natural', 200 if q else 2000),
             ('runs', 400 if q else 4000), ('edge', 40 if q else 200), ('even', 30 if q else 150),
-            ('sweep', 800 if q else 400 * 3 * len(SWEEP_P))]
+            ('sweep', 800 if q else 400 * 3 * len(SWEEP_P)), ('int', 400 if q else 4000)]
 
 
 def _describe(case, mode, i):
@@ -570,7 +784,8 @@ def _describe(case, mode, i):
     mva, md = _mv_array(case['max_voltage'])
     return {'mode': mode, 'i': i, 'nc': int(d.shape[0]), 'ns': int(d.shape[1]), 'dtype': str(d.dtype), 'range_len': int(mva.shape[0]),
             'range_dtype': 'float' + md, 'proportion': case.get('proportion'), 'v_per_sec': case.get('v_per_sec'), 'fs': case.get('fs'),
-            'mute_window_samples': case.get('mute_window_samples')}
+            'mute_window_samples': case.get('mute_window_samples'), 'form': case.get('form'),
+            'types': {k: type(case[k]).__name__ for k in ARG_ORDER if case.get(k) is not None}}
 
 
 def _nc_tag(nc):
@@ -677,20 +892,28 @@ def oracle(case, info=None):
     'undecided' (either outcome accepted) unless it is an exact tie, which is decided by the text ('exceed', 'more than');
     the slew test accepts either outcome at an exact tie (the code uses >=)."""
     data = np.asarray(case['data'])
-    if data.ndim != 2 or data.dtype.kind != 'f':
+    if data.ndim != 2 or data.dtype.kind not in 'fi':
         return None
     nc, ns = data.shape
     dflt = _defaults()
     p = dflt['proportion'] if case.get('proportion') is None else case['proportion']
     v = dflt['v_per_sec'] if case.get('v_per_sec') is None else case['v_per_sec']
     fs = dflt['fs'] if case.get('fs') is None else case['fs']
-    M = dflt['mute_window_samples'] if case.get('mute_window_samples') is None else case['mute_window_samples']
+    M = int(dflt['mute_window_samples'] if case.get('mute_window_samples') is None else case['mute_window_samples'])
     mva, md = _mv_array(case['max_voltage'])
-    if nc < 1 or ns < 1 or mva.shape[0] not in (1, nc) or M < 1 or not (0 <= p) or not np.all(np.isfinite(data)):
+    if nc < 1 or ns < 1 or mva.shape[0] not in (1, nc) or M < 1 or not (0 <= p) or not float(fs) > 0:
         return None                                   # outside the property's quantifier
+    if data.dtype.kind == 'f' and not np.all(np.isfinite(data)):
+        return None
+    if data.dtype.kind == 'i':                        # known finding int_overflow: np.abs / np.diff wrap around in the data's dtype
+        ii = np.iinfo(data.dtype)
+        wide = data.astype(np.float64)
+        if np.any(data == ii.min) or (ns > 1 and np.any(np.abs(np.diff(wide, axis=1)) > ii.max)):
+            return None
     results = _run(case)
     R = np.broadcast_to(mva.astype(np.float64), (nc,))
-    eps = float(np.finfo(np.float32).eps if (data.dtype == np.float32 or md == '32') else np.finfo(np.float64).eps)
+    single = data.dtype == np.float32 or md == '32' or any(isinstance(x, np.float32) for x in (v, fs))
+    eps = float(np.finfo(np.float32).eps if single else np.finfo(np.float64).eps)
     band = 16 * eps
     A = np.abs(data.astype(np.float64))
     T = 0.98 * R[:, None]
@@ -700,9 +923,9 @@ def oracle(case, info=None):
     slew = np.zeros((nc, max(ns - 1, 0)), np.int8)
     if ns > 1 and math.isfinite(v):
         D = np.abs(np.diff(data.astype(np.float64), axis=1)) / float(fs)
-        V = float(Fraction(str(v)))
+        V = float(_pfrac(v))
         slew = np.where(D > V * (1 + band), 1, np.where(D < V * (1 - band), 0, 2)).astype(np.int8)
-    P = Fraction(str(p))
+    P = _pfrac(p)
 
     def more(k):
         """is k of nc channels more than the proportion?  True / False / None (undecided)"""
@@ -772,7 +995,8 @@ def _safe_oracle(case, info=None):
 def _tiny_cases():
     """small hand-shaped inputs, smallest first: each clause of the property on a few channels / samples"""
     out = []
-    for dtype in (np.float64, np.float32):
+    for dtype in (np.float64, np.float32, np.int16, np.int64):
+        integer = np.dtype(dtype).kind == 'i'
         for nc in (1, 2, 5, 10):
             for ns in (1, 2, 3, 5):
                 for p in (None, 0.5):
@@ -781,17 +1005,17 @@ def _tiny_cases():
                         for t in sorted({0, ns // 2, ns - 1}):
                             for k in sorted({0, max(k0 - 1, 0), k0, min(k0 + 1, nc), nc}):
                                 for rk in ('scalar', 'per'):
-                                    R = 50.0 if rk == 'scalar' else (50.0 * (1 + (np.arange(nc) // 2) % 3))
+                                    R = (100.0 if integer else 50.0) if rk == 'scalar' else ((100.0 if integer else 50.0) * (1 + (np.arange(nc) // 2) % 3))
                                     Rc = np.broadcast_to(np.atleast_1d(R), (nc,))
                                     for what in ('tie', 'in97', 'in98', 'big', 'big2', 'step_big', 'step_neg', 'step_small'):
                                         d = np.zeros((nc, ns), dtype)
                                         kw = {'v_per_sec': 1e6}
                                         if what == 'tie':
-                                            d[:k, t] = 0.98 * Rc[:k]               # 49, 98, 147: exactly 98 % of 50, 100, 150
+                                            d[:k, t] = 0.98 * Rc[:k]               # 49, 98, 147 (98, 196, 294): exactly 98 % of the range
                                         elif what == 'in98':
-                                            d[:k, t] = 0.985 * Rc[:k]              # exceeds 98 %
+                                            d[:k, t] = 0.99 * Rc[:k] if integer else 0.985 * Rc[:k]              # exceeds 98 %
                                         elif what == 'in97':
-                                            d[:k, t] = -0.975 * Rc[:k]             # does not
+                                            d[:k, t] = -0.97 * Rc[:k] if integer else -0.975 * Rc[:k]             # does not
                                         elif what == 'big':
                                             d[:k, t] = -2 * Rc[:k]
                                         elif what == 'big2':                       # two adjacent saturated samples
@@ -802,14 +1026,22 @@ def _tiny_cases():
                                         else:
                                             if ns < 2 or t + 1 >= ns:
                                                 continue
-                                            kw = {}
-                                            d[:k, t + 1:] = {'step_big': 3e-3, 'step_neg': -3e-3, 'step_small': 3e-5}[what]    # limit 1e-8 * 30000 = 3e-4
-                                        out.append({'data': d, 'max_voltage': (50.0 if rk == 'scalar' else np.array(R, dtype=float)),
+                                            if integer:                            # units / s: limit 2 units per sample
+                                                kw = {'v_per_sec': 2.0, 'fs': 1}
+                                                d[:k, t + 1:] = {'step_big': 3, 'step_neg': -3, 'step_small': 1}[what]
+                                            else:
+                                                kw = {}
+                                                d[:k, t + 1:] = {'step_big': 3e-3, 'step_neg': -3e-3, 'step_small': 3e-5}[what]    # limit 1e-8 * 30000 = 3e-4
+                                        out.append({'data': d, 'max_voltage': ((100 if integer else 50.0) if rk == 'scalar' else np.array(R, dtype=float)),
                                                     'proportion': p, 'mute_window_samples': M, 'calls': 1, **kw})
+                                        if rk == 'scalar' and what in ('in98', 'big', 'step_big') and M is None:
+                                            # the same call in other legitimate forms: transposed view, positional spelling
+                                            out.append(dict(out[-1], form={'layout': 'T', 'readonly': False, 'spelling': 'kw'}))
+                                            out.append(dict(out[-2], form={'layout': 'C', 'readonly': True, 'spelling': 'pos'}))
                                         if rk == 'per' and what in ('in97', 'in98', 'tie') and M is None:
                                             # the caller keeps its range array and calls again
                                             out.append(dict(out[-1], calls=2))
-    out.sort(key=lambda c: (c['data'].size, c['data'].shape[1], c['calls']))
+    out.sort(key=lambda c: (c['data'].size, c['data'].shape[1], c['calls'], c['data'].dtype.kind == 'i', 'form' in c))
     return out
 
 
@@ -823,6 +1055,9 @@ def _shrink(case, why):
         nc, ns = d.shape
         mva, _ = _mv_array(best['max_voltage'])
         cands = []
+        fm = best.get('form') or {}
+        if fm.get('layout', 'C') != 'C' or fm.get('readonly') or fm.get('spelling', 'kw') != 'kw':
+            cands.append(dict(best, form={'layout': 'C', 'readonly': False, 'spelling': 'kw'}))
         if (best.get('calls') or 1) > 1:
             cands.append(dict(best, calls=(best.get('calls') or 1) - 1))
         for a, b in ((ns // 2, ns), (0, ns - ns // 2), (1, ns), (0, ns - 1)):
@@ -841,7 +1076,7 @@ def _shrink(case, why):
                     c['max_voltage'] = np.asarray(best['max_voltage'])[c0:c0 + 1].copy()
                 cands.append(c)
         thr = 0.5 * np.broadcast_to(mva.astype(np.float64), (nc,))[:, None] if mva.shape[0] in (1, nc) else None
-        if thr is not None and np.any((d != 0) & (np.abs(d) < thr)):
+        if thr is not None and d.dtype.kind == 'f' and np.any((d != 0) & (np.abs(d) < thr)):
             cands.append(dict(best, data=np.where(np.abs(d) < thr, 0, d).astype(d.dtype)))    # silence the background
         for c in cands:
             if c['data'].size == 0:
@@ -853,27 +1088,52 @@ def _shrink(case, why):
     return best, bwhy
 
 
+SCALAR_TYPES = {'int': int, 'float': float, 'float64': np.float64, 'float32': np.float32, 'int64': np.int64, 'int32': np.int32,
+                'int16': np.int16, 'uint8': np.uint8}
+
+
 def _export(case):
+    """the concrete call, values and form: dtype, memory layout, spelling, scalar types, number of calls"""
     d = case['data']
     mv = case['max_voltage']
-    mva, md = _mv_array(mv)
-    return {'data': [[float(x) for x in row] for row in d], 'dtype': str(d.dtype),
-            'max_voltage': (mv if isinstance(mv, (int, float)) else [float(x) for x in mva]),
-            'max_voltage_dtype': ('python scalar' if isinstance(mv, (int, float)) else 'float' + md),
-            **{k: case.get(k) for k in ('v_per_sec', 'fs', 'proportion', 'mute_window_samples')},
-            'calls': int(case.get('calls') or 1)}
+    num = (lambda x: int(x)) if d.dtype.kind == 'i' else (lambda x: float(x))
+    if isinstance(mv, (int, float)) and not isinstance(mv, (np.floating, np.integer)):
+        mvx, mvt = mv, 'python ' + type(mv).__name__
+    elif isinstance(mv, list):
+        mvx, mvt = list(mv), 'list'
+    elif isinstance(mv, np.ndarray):
+        mvx, mvt = [(int(x) if mv.dtype.kind in 'iu' else float(x)) for x in mv], 'ndarray ' + str(mv.dtype)
+    else:
+        mvx, mvt = float(mv), 'scalar ' + type(mv).__name__
+    out = {'data': [[num(x) for x in row] for row in d], 'dtype': str(d.dtype), 'max_voltage': mvx, 'max_voltage_type': mvt}
+    types = {}
+    for k in ARG_ORDER:
+        x = case.get(k)
+        if x is None:
+            out[k] = None
+        else:
+            types[k] = type(x).__name__
+            out[k] = int(x) if isinstance(x, (int, np.integer)) else float(x)
+    out.update({'types': types, 'form': case.get('form') or {'layout': 'C', 'readonly': False, 'spelling': 'kw'},
+                'calls': int(case.get('calls') or 1)})
+    return out
 
 
 def _import(inp):
     data = np.array(inp['data'], dtype=np.dtype(inp['dtype'])).reshape(len(inp['data']), -1)
-    mv = inp['max_voltage']
-    if isinstance(mv, list):
-        mv = np.array(mv, dtype=np.float32 if inp.get('max_voltage_dtype') == 'float32' else np.float64)
-    case = {'data': data, 'max_voltage': mv, 'calls': int(inp.get('calls') or 1)}
-    for k in ('v_per_sec', 'fs', 'proportion', 'mute_window_samples'):
+    mv, mvt = inp['max_voltage'], inp.get('max_voltage_type', '')
+    if mvt.startswith('ndarray') or (not mvt and isinstance(mv, list)):
+        dt = mvt.split()[1] if mvt else ('float32' if inp.get('max_voltage_dtype') == 'float32' else 'float64')
+        mv = np.array(mv, dtype=np.dtype(dt))
+    elif mvt.startswith('scalar'):
+        mv = SCALAR_TYPES.get(mvt.split()[1], float)(mv)
+    case = {'data': data, 'max_voltage': mv, 'calls': int(inp.get('calls') or 1), 'form': inp.get('form')}
+    for k in ARG_ORDER:
         val = inp.get(k)
         if isinstance(val, str):        # json has no inf
             val = float(val)
+        if val is not None:
+            val = SCALAR_TYPES.get((inp.get('types') or {}).get(k, ''), type(val))(val)
         case[k] = val
     return case
 
@@ -965,4 +1225,13 @@ def known_findings(ctx):
         ctx.note(f'F9: mute_window_samples=8, isolated flagged sample 4: flags={sat.astype(int).tolist()}, gain there {mute[4]!r} '
                  f'(1 - cos(pi/16) = {1 - math.cos(math.pi / 16)!r})')
         return bool(sat[4] and mute[4] > 1e-3)
-    return {'even_mute_window': even_mute_window}
+    def int_overflow():
+        # integer traces: np.abs(-32768) = -32768 and np.diff wraps around in int16
+        a = np.array([[-32768, 0, 0]], dtype=np.int16)            # full-scale negative sample, range 32768: |x| > 0.98 range
+        fa, _ = _sat()(a, 32768, v_per_sec=1e12)
+        b = np.array([[-32768, 32767, 32767]], dtype=np.int16)    # a step of 65535 units, limit 2 units per sample
+        fb, _ = _sat()(b, 1e9, v_per_sec=2.0, fs=1)
+        ctx.note(f'int_overflow: int16 sample -32768 with range 32768 flagged={bool(fa[0])} (expected True); int16 step -32768 -> 32767 '
+                 f'with limit 2 units/sample flagged={bool(fb[0])} (expected True)')
+        return bool(not fa[0] and not fb[0])
+    return {'even_mute_window': even_mute_window, 'int_overflow': int_overflow}
